@@ -7,6 +7,7 @@ pub fn gen(tier: &str, seed: u64, emit: &mut dyn FnMut(String)) {
     BIG_PES.store(true, std::sync::atomic::Ordering::Relaxed);
     let n = if tier == "thorough" { 12000 } else { 1200 };
     for i in 0..n {
+        if i % 40 == 7 { emit(moving_pid_case(&mut rng)); continue; }
         let nprog = 1 + (i % 4) as usize;
         let (m, t, _p) = valid_stream(&mut rng, nprog, 1 + (i % 5) as usize, i % 3 != 0);
         // pushes cut at packet boundaries now and then
@@ -23,4 +24,42 @@ pub fn gen(tier: &str, seed: u64, emit: &mut dyn FnMut(String)) {
         }
         emit(line);
     }
+}
+
+/// an elementary PID that moves from one program to another while its stream goes on: program A drops X, program B announces
+/// X, program A changes once more; between the table changes whole PES packets travel on X (each starting after the change
+/// that precedes it), and every one of them must be delivered
+fn moving_pid_case(rng: &mut Rng) -> String {
+    use crate::mux::*;
+    let pids = pick_pids(rng, 6);
+    let (pa, pb, x, a1, b1) = (pids[0], pids[1], pids[2], pids[3], pids[4]);
+    let mut m = Mux::new();
+    let pat = section(0, 1, rng.below(32) as u8, true, &pat_body(&[(1, pa), (2, pb)], rng));
+    let mut va = rng.below(32) as u8; let mut vb = rng.below(32) as u8;
+    let pmt = |pn: u16, v: u8, ss: &[(u8, u16)], rng: &mut Rng| { let l: Vec<(u8, u16, Vec<u8>)> = ss.iter().map(|(t, p)| (*t, *p, vec![])).collect(); section(2, pn, v, true, &pmt_body(ss[0].1, &[], &l, rng)) };
+    let mut truth: Vec<(u8, Option<u64>, Option<u64>, Vec<u8>)> = vec![];
+    let mut pes = |m: &mut Mux, truth: &mut Vec<(u8, Option<u64>, Option<u64>, Vec<u8>)>, rng: &mut Rng| {
+        for _ in 0..rng.range(1, 3) {
+            let n = rng.range(0, 500) as usize; let payload = rng.bytes(n); let pts = rng.below(1 << 33);
+            let spec = PesSpec { stream_id: 0xe0, pts: Some(pts), dts: None, extra_hdr: 0, bounded: true, payload: payload.clone(), opt_flags: 0, opt_fill: vec![0xff] };
+            let (bytes, hl) = pes_packet(&spec); m.unit(x, &bytes, 0, hl, rng);
+            truth.push((0xe0, Some(pts), None, payload));
+        }
+    };
+    m.psi(0, &pat, 0, 0, rng);
+    m.psi(pa, &pmt(1, va, &[(0x1b, a1), (0x1b, x)], rng), 0, 0, rng);
+    m.psi(pb, &pmt(2, vb, &[(0x0f, b1)], rng), 0, 0, rng);
+    pes(&mut m, &mut truth, rng);
+    va = (va + 1) & 31; m.psi(pa, &pmt(1, va, &[(0x1b, a1)], rng), 0, 0, rng);                       // A drops X
+    vb = (vb + 1) & 31; m.psi(pb, &pmt(2, vb, &[(0x0f, b1), (0x1b, x)], rng), 0, 0, rng);           // B announces X
+    pes(&mut m, &mut truth, rng);
+    va = (va + 1) & 31; m.psi(pa, &pmt(1, va, &[(0x1b, a1), (0x0f, pids[5])], rng), 0, 0, rng);     // A changes again
+    pes(&mut m, &mut truth, rng);
+    let mut line = dmx_case(0, "", &[m.bytes()]);
+    line.push_str(&format!(" #P{}=", x));
+    for (k, (sid, pts, dts, pl)) in truth.iter().enumerate() {
+        if k > 0 { line.push(';'); }
+        line.push_str(&format!("{}:{}:{}:{}", sid, pts.map(|v| v as i64).unwrap_or(-1), dts.map(|v| v as i64).unwrap_or(-1), hex(pl)));
+    }
+    line
 }
